@@ -226,8 +226,12 @@ pub fn worker<L: Lane>(a: &WorkerArgs) -> i32 {
         tmp.executions = st.executions;
         tmp.steps = st.steps;
         st.run_digests.push((idx, digest_run(&sc, &vs, before, &tmp)));
-        if st.samples.len() < 3 && idx % 7 == 0 {
-            st.samples.push(serde_json::to_value(&sc).unwrap());
+        if st.samples.len() < 3 {
+            // written-out cases for the evidence file: prefer small ones
+            let text = serde_json::to_string(&sc).unwrap();
+            if text.len() < 1500 {
+                st.samples.push(serde_json::to_value(&sc).unwrap());
+            }
         }
         for (k, v) in vs.into_iter().enumerate() {
             let mut sc2 = sc.clone();
